@@ -234,9 +234,16 @@ func (g *Generator) generateFlattenedMarshal(
 	fieldGoName := variant.Field.GoName
 	fieldJSONName := variant.Field.Desc.JSONName()
 
-	gf.P("// Flatten: marshal variant via json.Marshal to invoke child MarshalJSON")
+	gf.P("// Flatten: use the variant's own MarshalJSON when it has one, otherwise its proto3 JSON")
+	gf.P("// form (encoding/json would use the Go struct tags)")
 	gf.P("if inner := x.Get", fieldGoName, "(); inner != nil {")
-	gf.P("variantData, varErr := json.Marshal(inner)")
+	gf.P("var variantData []byte")
+	gf.P("var varErr error")
+	gf.P("if variantMarshaler, ok := interface{}(inner).(json.Marshaler); ok {")
+	gf.P("variantData, varErr = variantMarshaler.MarshalJSON()")
+	gf.P("} else {")
+	gf.P("variantData, varErr = protojson.Marshal(inner)")
+	gf.P("}")
 	gf.P("if varErr == nil {")
 	gf.P("var variantMap map[string]json.RawMessage")
 	gf.P("if json.Unmarshal(variantData, &variantMap) == nil {")
@@ -360,14 +367,20 @@ func (g *Generator) generateFlattenedUnmarshal(
 
 	gf.P("variantData, _ := json.Marshal(variantMap)")
 	gf.P("variant := &", msgType, "{}")
-	gf.P("if err := json.Unmarshal(variantData, variant); err != nil {")
-	gf.P(`return fmt.Errorf("failed to unmarshal variant %s: %w", "`, fieldGoName, `", err)`)
+	gf.P("var varErr error")
+	gf.P("if variantUnmarshaler, ok := interface{}(variant).(json.Unmarshaler); ok {")
+	gf.P("varErr = variantUnmarshaler.UnmarshalJSON(variantData)")
+	gf.P("} else {")
+	gf.P("varErr = protojson.Unmarshal(variantData, variant)")
+	gf.P("}")
+	gf.P("if varErr != nil {")
+	gf.P(`return fmt.Errorf("failed to unmarshal variant %s: %w", "`, fieldGoName, `", varErr)`)
 	gf.P("}")
 	gf.P("x.", info.Oneof.GoName, " = &", wrapperType, "{", fieldGoName, ": variant}")
 
 	// Add the variant back to raw under its original field name for protojson
 	// (protojson expects the oneof wrapper format)
-	gf.P(`raw["`, fieldJSONName, `"], _ = json.Marshal(variant)`)
+	gf.P(`raw["`, fieldJSONName, `"], _ = protojson.Marshal(variant)`)
 }
 
 // generateNestedUnmarshal generates non-flattened unmarshal code for a message variant.
@@ -386,8 +399,14 @@ func (g *Generator) generateNestedUnmarshal(
 	gf.P("// Non-flattened unmarshal: use json.Unmarshal for child UnmarshalJSON support")
 	gf.P(`if variantRaw, exists := raw["`, fieldJSONName, `"]; exists {`)
 	gf.P("variant := &", msgType, "{}")
-	gf.P("if err := json.Unmarshal(variantRaw, variant); err != nil {")
-	gf.P(`return fmt.Errorf("failed to unmarshal variant %s: %w", "`, fieldGoName, `", err)`)
+	gf.P("var varErr error")
+	gf.P("if variantUnmarshaler, ok := interface{}(variant).(json.Unmarshaler); ok {")
+	gf.P("varErr = variantUnmarshaler.UnmarshalJSON(variantRaw)")
+	gf.P("} else {")
+	gf.P("varErr = protojson.Unmarshal(variantRaw, variant)")
+	gf.P("}")
+	gf.P("if varErr != nil {")
+	gf.P(`return fmt.Errorf("failed to unmarshal variant %s: %w", "`, fieldGoName, `", varErr)`)
 	gf.P("}")
 	gf.P("x.", info.Oneof.GoName, " = &", wrapperType, "{", fieldGoName, ": variant}")
 	gf.P("}")
